@@ -4,6 +4,7 @@
 package main
 
 import (
+	"bytes"
 	"encoding/hex"
 	"errors"
 	"encoding/json"
@@ -37,16 +38,19 @@ type val struct {
 type gateT struct {
 	entered chan struct{}
 	release chan struct{}
+	key     []byte // only a value with this key A stops at the gate (nil: any value)
 }
 
-var gate atomic.Value // *gateT or (*gateT)(nil)
+var gate, gate2 atomic.Value // *gateT or (*gateT)(nil)
 
-// index "k": key A, never nil.  The first call while a gate is armed blocks.
+// index "k": key A, never nil.  The first (matching) call while a gate is armed blocks.
 func keyA(v interface{}) []byte {
-	if g, _ := gate.Load().(*gateT); g != nil {
-		if gate.CompareAndSwap(g, (*gateT)(nil)) {
-			close(g.entered)
-			<-g.release
+	for _, gv := range []*atomic.Value{&gate, &gate2} {
+		if g, _ := gv.Load().(*gateT); g != nil && (g.key == nil || bytes.Equal(g.key, v.(val).A)) {
+			if gv.CompareAndSwap(g, (*gateT)(nil)) {
+				close(g.entered)
+				<-g.release
+			}
 		}
 	}
 	return append([]byte{}, v.(val).A...)
@@ -118,9 +122,17 @@ type env struct {
 	db  *badger.DB
 	st  *badgerstore.Store
 	qs  *badgerstore.QueryStore
+	ids []string // the ids the histories use
+	vp  string   // what the store puts before an id to form the value key
 }
 
-func newEnv() *env {
+func newEnv() *env { return newEnvOpt(false, mkIQ) }
+
+// unprefixed: Store without prefix (the raw value key is the id itself) and ids among which are "k;" and "kb;",
+// the bytewise successors of the index prefixes "k:" and "kb:" - the keys a reverse scan seeks to.
+var succIDs = []string{"1", "2", "k;", "kb;"}
+
+func newEnvOpt(unprefixed bool, iq func(*badgerstore.QueryStore, url.Values) (*badgerstore.IndexQuery, error)) *env {
 	dir, err := os.MkdirTemp("", "verif-index-")
 	if err != nil {
 		panic(err)
@@ -133,11 +145,17 @@ func newEnv() *env {
 		os.RemoveAll(dir)
 		panic(err)
 	}
-	st := badgerstore.NewStore(db).SetType(val{}).SetPrefix("v")
-	qs := badgerstore.NewQueryStore(st, mkIQ).
+	st := badgerstore.NewStore(db).SetType(val{})
+	ids, vp := allIDs, "v."
+	if unprefixed {
+		ids, vp = succIDs, ""
+	} else {
+		st.SetPrefix("v")
+	}
+	qs := badgerstore.NewQueryStore(st, iq).
 		AddIndex(badgerstore.Index{Name: "k", Key: keyA}).
 		AddIndex(badgerstore.Index{Name: "kb", Key: keyB})
-	return &env{dir: dir, db: db, st: st, qs: qs}
+	return &env{dir: dir, db: db, st: st, qs: qs, ids: ids, vp: vp}
 }
 
 func (e *env) close() {
@@ -304,7 +322,7 @@ var allIDs = []string{"1", "2", "3", "4"}
 
 func (e *env) stored() string {
 	var parts []string
-	for _, id := range append([]string{""}, allIDs...) {
+	for _, id := range append([]string{""}, e.ids...) {
 		v, err := e.st.Get(id)
 		if err == nil {
 			parts = append(parts, "("+B(id)+","+valCoq(v.(val))+")")
@@ -315,7 +333,7 @@ func (e *env) stored() string {
 
 func (e *env) storedVals() map[string]val {
 	m := map[string]val{}
-	for _, id := range allIDs {
+	for _, id := range e.ids {
 		v, err := e.st.Get(id)
 		if err == nil {
 			m[id] = v.(val)
@@ -324,7 +342,7 @@ func (e *env) storedVals() map[string]val {
 	return m
 }
 
-// every key of the database that is not a stored value ("v.<id>")
+// every key of the database, in iteration order: index entries and raw value keys
 func (e *env) indexKeys() []string {
 	var keys []string
 	e.db.View(func(txn *badger.Txn) error {
@@ -333,10 +351,7 @@ func (e *env) indexKeys() []string {
 		it := txn.NewIterator(o)
 		defer it.Close()
 		for it.Rewind(); it.Valid(); it.Next() {
-			k := string(it.Item().KeyCopy(nil))
-			if !strings.HasPrefix(k, "v.") {
-				keys = append(keys, k)
-			}
+			keys = append(keys, string(it.Item().KeyCopy(nil)))
 		}
 		return nil
 	})
@@ -363,7 +378,9 @@ func genKey(r *Rng, nul bool) string {
 	return r.Pick(keyPool)
 }
 
-func genHistory(r *Rng, n int, nul bool) []mut {
+func genHistory(r *Rng, n int, nul bool) []mut { return genHistoryIDs(r, n, nul, allIDs) }
+
+func genHistoryIDs(r *Rng, n int, nul bool, allIDs []string) []mut {
 	exists := map[string]bool{}
 	cur := map[string]mut{}
 	var ms []mut
@@ -477,10 +494,18 @@ type c13desc struct {
 	// Backlog: the index worker is stalled inside Index.Key while one writer issues all mutations (more than
 	// the 256-slot task queue holds), then released; see applyBacklog.
 	Backlog bool `json:"backlog"`
+	// Unprefixed: Store without prefix; the ids include "k;" / "kb;" whose raw value keys are exactly the
+	// prefix successors of "k:" / "kb:" (the key a Reverse scan seeks to and has to step over).
+	Unprefixed bool `json:"unprefixed_store"`
+	// Overlap != 0: the overlapping-Flush scenario (see flushOverlap), Muts/Queries are what it ran
+	Overlap int `json:"overlapping_flush"`
 }
 
 func runC13(d c13desc, dist map[string]int, impl *[]ImplViolation) Case {
-	e := newEnv()
+	if d.Overlap != 0 {
+		return flushOverlap(d.Overlap, dist, impl)
+	}
+	e := newEnvOpt(d.Unprefixed, mkIQ)
 	defer e.close()
 	var stop int32
 	var wg sync.WaitGroup
@@ -534,7 +559,7 @@ func runC13(d c13desc, dist map[string]int, impl *[]ImplViolation) Case {
 	}
 	var c Case
 	c.Desc = d
-	c.Term = "C13 " + List(ms) + " " + e.stored() + " " + BList(e.indexKeys()) + " " + List(qos)
+	c.Term = "C13 " + List(ms) + " " + e.stored() + " " + B(e.vp) + " " + BList(e.indexKeys()) + " " + List(qos)
 	c.Nontrivial = multi > 0 && len(vals) >= 2
 	if hasNulKey(vals) {
 		c.Tags = append(c.Tags, "nul-in-key")
@@ -650,6 +675,195 @@ func flushRace(impl *[]ImplViolation, dist map[string]int) {
 	}
 }
 
+// flushOverlap: overlapping QueryStore.Flush calls.  The index worker is stalled inside Index.Key (task of an
+// update), then the actors start one after the other, each on its own goroutine: a flusher just calls Flush, a
+// writer commits a create and then calls Flush.  The first gate is released; the index task of the LAST writer is
+// held by a second gate for a while.  Whoever is last takes, right after its own Flush returned, the stored
+// values, the key space and some queries: they must reflect every mutation committed before that Flush call.
+//   1: flusher, writer      2: writer, flusher      3: writer, writer      4: flusher, writer, writer
+func flushOverlap(variant int, dist map[string]int, impl *[]ImplViolation) Case {
+	e := newEnv()
+	defer e.close()
+	type actor struct{ m *mut }
+	w := func(id, key string) actor {
+		return actor{&mut{Op: "c", ID: id, A: hex.EncodeToString([]byte(key)), BNil: true}}
+	}
+	var actors []actor
+	switch variant {
+	case 1:
+		actors = []actor{{}, w("2", "c")}
+	case 2:
+		actors = []actor{w("2", "c"), {}}
+	case 3:
+		actors = []actor{w("2", "c"), w("3", "d")}
+	default:
+		variant = 4
+		actors = []actor{{}, w("2", "c"), w("3", "d")}
+	}
+	muts := []mut{{Op: "c", ID: "1", A: "61", BNil: true}, {Op: "u", ID: "1", A: "62", BNil: true}}
+	lastKey := []byte("c")
+	for _, a := range actors {
+		if a.m != nil {
+			muts = append(muts, *a.m)
+			lastKey, _ = hex.DecodeString(a.m.A)
+		}
+	}
+	queries := []qd{{L: -1}, {P: "63", L: -1}, {P: "64", L: -1}, {L: -1, R: true}, {P: "62", L: 2}, {I: 1, L: -1}}
+	d := c13desc{Muts: muts, Queries: queries, Overlap: variant}
+	var c Case
+	c.Desc = d
+	e.apply(muts[0])
+	e.qs.Flush()
+	g1 := &gateT{entered: make(chan struct{}), release: make(chan struct{}), key: []byte("b")}
+	g2 := &gateT{entered: make(chan struct{}), release: make(chan struct{}), key: lastKey}
+	gate.Store(g1)
+	gate2.Store(g2)
+	e.apply(muts[1])
+	select {
+	case <-g1.entered:
+	case <-time.After(5 * time.Second):
+		*impl = append(*impl, ImplViolation{What: "harness lost the index task (Index.Key gate never entered)", Desc: d})
+	}
+	var stored, keys string
+	var qos []string
+	dones := make([]chan struct{}, len(actors))
+	for i, a := range actors {
+		i, a := i, a
+		dones[i] = make(chan struct{})
+		go func() {
+			defer close(dones[i])
+			if a.m != nil {
+				e.apply(*a.m)
+			}
+			e.qs.Flush()
+			if i == len(actors)-1 {
+				stored = e.stored()
+				keys = BList(e.indexKeys())
+				for _, q := range queries {
+					ids, kind := e.query(q)
+					qos = append(qos, "QO "+q.coq()+" "+outcomeCoq(ids, kind))
+				}
+			}
+		}()
+		time.Sleep(30 * time.Millisecond) // let it queue its index task / Flush sentinel before the next actor starts
+	}
+	close(g1.release)
+	last := dones[len(actors)-1]
+	select {
+	case <-last:
+		dist["overlap_last_flush_returned_while_its_index_task_was_held"]++
+	case <-time.After(150 * time.Millisecond):
+	}
+	gate.Store((*gateT)(nil))
+	gate2.Store((*gateT)(nil))
+	close(g2.release)
+	for _, dn := range dones {
+		select {
+		case <-dn:
+		case <-time.After(10 * time.Second):
+			*impl = append(*impl, ImplViolation{What: "overlapping Flush: a Flush call did not return after the index tasks were released", Desc: d, Tags: []string{"flush-overlap"}})
+			return Case{Term: "C13 [] [] [] [] []", Desc: d}
+		}
+	}
+	var ms []string
+	for _, m := range muts {
+		ms = append(ms, m.coq())
+	}
+	c.Term = "C13 " + List(ms) + " " + stored + " " + B(e.vp) + " " + keys + " " + List(qos)
+	c.Nontrivial = true
+	dist["overlapping_flush_scenarios"]++
+	return c
+}
+
+// mainRace (-race-subset): for a -race build.  Concurrent index queries - directly and through a QueryHandler -
+// whose IndexQuery callback returns ONE shared *IndexQuery per scenario (negative limit / offset variants; a
+// fresh shared value per scenario since a write to it shows on first use), plus a concurrent writer.
+func mainRace(o Opts) {
+	dist := map[string]int{}
+	var impl []ImplViolation
+	var cases []Case
+	type variant struct{ off, lim int }
+	vs := []variant{{0, -1}, {-1, -1}, {-1, 2}, {2, -3}, {0, 3}, {-2, -2}}
+	rounds := 2
+	if o.Tier == "thorough" {
+		rounds = 10
+	}
+	for k := 0; k < rounds; k++ {
+		for _, v := range vs {
+			var shared *badgerstore.IndexQuery
+			e := newEnvOpt(false, func(qs *badgerstore.QueryStore, _ url.Values) (*badgerstore.IndexQuery, error) {
+				return shared, nil
+			})
+			shared = &badgerstore.IndexQuery{Index: e.qs.Index("k"), Offset: v.off, Limit: v.lim, Reverse: k%2 == 1}
+			for i, id := range allIDs {
+				e.apply(mut{Op: "c", ID: id, A: hex.EncodeToString([]byte{byte('a' + i)}), BNil: true})
+			}
+			e.qs.Flush()
+			var logErrs int32
+			svc := res.NewService("t")
+			svc.SetLogger(nolog{&logErrs})
+			svc.Handle("all", res.Collection, store.QueryHandler{QueryStore: e.qs})
+			svc.Handle("p.$x", res.Collection, store.QueryHandler{QueryStore: e.qs,
+				RequestHandler:    func(string, map[string]string) (url.Values, error) { return nil, nil },
+				AffectedResources: func(res.Pattern, store.QueryChange) []string { return []string{"t.p.61", "t.p.62"} }})
+			conn := newConn()
+			started := make(chan struct{})
+			var once sync.Once
+			conn.onPub = func(subj string, _ []byte) {
+				if subj == "system.reset" {
+					once.Do(func() { close(started) })
+				}
+			}
+			go svc.Serve(conn)
+			select {
+			case <-started:
+			case <-time.After(5 * time.Second):
+			}
+			start := make(chan struct{})
+			var wg sync.WaitGroup
+			for g := 0; g < 4; g++ {
+				wg.Add(1)
+				go func() {
+					defer wg.Done()
+					<-start
+					for i := 0; i < 150; i++ {
+						e.qs.Query(nil)
+					}
+				}()
+			}
+			for _, rid := range []string{"t.all", "t.p.61", "t.p.62"} {
+				rid := rid
+				wg.Add(1)
+				go func() {
+					defer wg.Done()
+					<-start
+					for i := 0; i < 40; i++ {
+						conn.request("get."+rid, []byte(`{}`))
+					}
+				}()
+			}
+			wg.Add(1)
+			go func() {
+				defer wg.Done()
+				<-start
+				for i := 0; i < 60; i++ {
+					e.apply(mut{Op: "u", ID: allIDs[i%4], A: hex.EncodeToString([]byte{byte('a' + i%7)}), BNil: i%2 == 0, B: "62"})
+				}
+			}()
+			close(start)
+			wg.Wait()
+			e.qs.Flush()
+			svc.Shutdown()
+			e.close()
+			dist["race_scenarios"]++
+			cases = append(cases, Case{Term: "C13 [] [] [] [] []", Desc: map[string]interface{}{"scenario": "shared-index-query", "offset": v.off, "limit": v.lim}})
+		}
+	}
+	Emit(o, "C13", "From GoRes Require Import Run.Run_C13.", "c13case",
+		"race-detector subset: concurrent index queries (4 goroutines directly, 3 through store.QueryHandler get requests) sharing one *IndexQuery returned by the query callback, with a concurrent writer; outputs are not compared",
+		cases, dist, nil, impl, 40)
+}
+
 func mainC13(o Opts, nul bool) {
 	r := NewRng(o.Seed)
 	var cases []Case
@@ -680,12 +894,17 @@ func mainC13(o Opts, nul bool) {
 				hl = 1 + i/3
 			}
 			useNul := nul && i%9 == 4
+			unpref := !useNul && i%3 == 2
 			ms := genHistory(r, hl, useNul)
+			if unpref {
+				ms = genHistoryIDs(r, hl, false, succIDs)
+				dist["histories_unprefixed_store_successor_ids"]++
+			}
 			full := o.Tier == "thorough" && i%10 == 0
 			if o.Tier == "thorough" && !full {
 				nq = 150
 			}
-			d := c13desc{Muts: ms, Queries: genQueries(r, ms, full, nq), Racing: i%4 == 1}
+			d := c13desc{Muts: ms, Queries: genQueries(r, ms, full, nq), Racing: i%4 == 1, Unprefixed: unpref}
 			c := runC13(d, dist, &impl)
 			dist["histories"]++
 			dist["mutations"] += hl
@@ -717,9 +936,19 @@ func mainC13(o Opts, nul bool) {
 		for i := 0; i < races; i++ {
 			flushRace(&impl, dist)
 		}
+		// overlapping Flush calls from several goroutines, a mutation queued between them
+		rounds := 1
+		if o.Tier == "thorough" {
+			rounds = 5
+		}
+		for k := 0; k < rounds; k++ {
+			for v := 1; v <= 4; v++ {
+				cases = append(cases, flushOverlap(v, dist, &impl))
+			}
+		}
 	}
 	Emit(o, "C13", "From GoRes Require Import Run.Run_C13.", "c13case",
-		"random mutation histories (1-30 creates / key-changing and key-keeping updates / deletes / failing operations over 4 ids, two indexes, one with nil keys) on a real BadgerDB, Flush, then index queries: prefix (empty, partial, full key, longer, containing NUL / ':' / 0xFF) x key filter x offset -1..3 x limit -3..3 x Reverse; every fourth history with queries racing the index maintenance; backlog histories (one writer issues 300-600, thorough up to 2000, mutations while the index worker is stalled inside Index.Key so the 256-slot task queue fills up, then release and Flush); Flush-race scenario with the index task held in Index.Key; non-trivial = at least 2 stored values and a query returning at least 2 ids; distinct by (history, queries)",
+		"random mutation histories (1-30 creates / key-changing and key-keeping updates / deletes / failing operations over 4 ids, two indexes, one with nil keys) on a real BadgerDB, Flush, then index queries: prefix (empty, partial, full key, longer, containing NUL / ':' / 0xFF) x key filter x offset -1..3 x limit -3..3 x Reverse; every fourth history with queries racing the index maintenance; backlog histories (one writer issues 300-600, thorough up to 2000, mutations while the index worker is stalled inside Index.Key so the 256-slot task queue fills up, then release and Flush); every third history on a Store without prefix whose ids include \"k;\" / \"kb;\" (raw value keys exactly equal to the prefix successor a Reverse scan seeks to; the whole key space is compared); Flush-race scenario with the index task held in Index.Key; overlapping-Flush scenarios (a flusher / writer+flusher pair or triple in both orders while the index worker is stalled, the last one snapshots values, key space and queries right after its own Flush); non-trivial = at least 2 stored values and a query returning at least 2 ids; distinct by (history, queries)",
 		cases, dist, map[string]interface{}{"nul_keys": nul}, impl, 40)
 }
 
@@ -1553,9 +1782,15 @@ func nulKeyFindingRegistered() bool {
 func main() {
 	prop := flag.String("prop", "C13", "C13|C14")
 	nulMode := flag.String("nulkeys", "auto", "C13: histories with NUL bytes inside index keys (known finding nul-in-key): on|off|auto (auto = on iff /verif/known_findings.json registers C13 / nul-in-key as known)")
+	raceSubset := flag.Bool("race-subset", false, "only the concurrent shared-IndexQuery scenarios (for -race builds, C16)")
 	o := ParseOpts()
 	gate.Store((*gateT)(nil))
+	gate2.Store((*gateT)(nil))
 	nul := *nulMode == "on" || (*nulMode == "auto" && nulKeyFindingRegistered())
+	if *raceSubset {
+		mainRace(o)
+		return
+	}
 	switch *prop {
 	case "C13":
 		mainC13(o, nul)
